@@ -24,7 +24,7 @@ Spec == Init /\\ [][Next]_<<tid, l, m>>
 """
 CFG = "SPECIFICATION Spec\nCONSTRAINT Report\nCHECK_DEADLOCK FALSE\n"
 
-_V = re.compile(r'<<"VERDICT", (\d+), "([^"]*)", (-?\d+), (\d+)>>')
+_V = re.compile(r'<<\s*"VERDICT",\s*(\d+),\s*"([^"]*)",\s*(-?\d+),\s*(\d+)\s*>>')     # (TLC wraps long tuples over several lines)
 
 
 def _chunk(args):
